@@ -1,6 +1,376 @@
-//! C17 harness commands (stub).
-use std::io::Write;
+//! C17: layered configuration and rewrite rules on the real code.
+//!
+//! `hx c17 select` — line `<file-path-enc> <yaml-enc>`: real `load_from_yaml` + `ConfigSet::select`
+//!     -> `(some <entry>)` | `(none)` | `(err <stage> <kind>)`, `<entry>` in the canonical form documented in
+//!     lean/Okane/Drv/C17.lean (maps sorted by key).
+//! `hx c17 rules`  — line `<yaml-enc> <n> <field>=<kind>...`: the document's `rewrite` list is turned into the real
+//!     `extract::Extractor` over a matcher defined here (`RecMatcher`, the same shape as the three
+//!     importers' matchers: regex from `extract::regex_matcher`, named groups through `Matched::from`), run `n`
+//!     times from freshly deserialised rules (so the `HashMap` of every field matcher is iterated in several
+//!     orders) -> `(frags <frag>...)` (distinct results, first seen first) `(table <entry>...)`: the regex verdict
+//!     for every (pattern, text) pair the fold can look at, which is what the Lean model takes as its
+//!     `captures` parameter.
+//!     Record tokens: `<field>=P:<enc>` / `<field>=P-` (payee field with / without original payee),
+//!     `<field>=T1:<enc>` / `T0:<enc>` / `T1-` (text field keeping / dropping capture groups / absent),
+//!     `<field>=C:<enc>` / `C-` (coded field).  Unlisted fields are absent text fields.
+use std::collections::{BTreeMap, BTreeSet, HashMap};
+use std::convert::{TryFrom, TryInto};
+use std::io::{BufRead, Write};
+use std::path::Path;
 
-pub fn run(_args: &[String], _out: &mut dyn Write) -> i32 {
+use okane::import::{config, extract, ImportError};
+
+use crate::c15::err_kind;
+use crate::sx::{self, enc};
+use crate::tree::opt;
+
+// ------------------------------------------------------------------------------------------------
+// canonical dump of configuration values
+
+fn conv_sx(c: &config::CommodityConversionSpec) -> String {
+    format!(
+        "(conv {} {} {} {})",
+        match c.amount {
+            config::ConversionAmountMode::Extract => "extract",
+            config::ConversionAmountMode::Compute => "compute",
+        },
+        opt(c.commodity.as_ref(), |s| enc(s)),
+        match c.rate {
+            config::ConversionRateMode::PriceOfSecondary => "sec",
+            config::ConversionRateMode::PriceOfPrimary => "pri",
+        },
+        c.disabled as u8
+    )
+}
+
+fn field_matcher_sx(m: &config::FieldMatcher) -> String {
+    let mut fs: Vec<(String, &String)> = m.fields.iter().map(|(k, v)| (k.to_string(), v)).collect();
+    fs.sort();
+    format!("({})", fs.iter().map(|(k, v)| format!("({} {})", k, enc(v))).collect::<Vec<_>>().join(" "))
+}
+
+fn rule_sx(r: &config::RewriteRule) -> String {
+    let m = match &r.matcher {
+        config::RewriteMatcher::Or(ms) => format!("(or {})", ms.iter().map(field_matcher_sx).collect::<Vec<_>>().join(" ")),
+        config::RewriteMatcher::Field(m) => format!("(field {})", field_matcher_sx(m)),
+    };
+    format!(
+        "(rule {} {} {} {} {})",
+        m,
+        r.pending as u8,
+        opt(r.payee.as_ref(), |s| enc(s)),
+        opt(r.account.as_ref(), |s| enc(s)),
+        opt(r.conversion.as_ref(), conv_sx)
+    )
+}
+
+fn snake(s: &str) -> String {
+    let mut out = String::new();
+    for (i, c) in s.chars().enumerate() {
+        if c.is_uppercase() {
+            if i > 0 {
+                out.push('_');
+            }
+            out.extend(c.to_lowercase());
+        } else {
+            out.push(c);
+        }
+    }
+    out
+}
+
+fn format_sx(f: &config::FormatSpec) -> String {
+    let com: BTreeMap<&String, u8> = f.commodity.iter().map(|(k, v)| (k, v.precision)).collect();
+    let mut fields: Vec<(String, String)> = f
+        .fields
+        .iter()
+        .map(|(k, v)| {
+            let pos = match v {
+                config::FieldPos::Index(i) => format!("(i {})", i.as_one_based()),
+                config::FieldPos::Label(s) => format!("(l {})", enc(s)),
+                config::FieldPos::Template(t) => format!("(t {})", enc(&t.template)),
+            };
+            (snake(&format!("{:?}", k)), pos)
+        })
+        .collect();
+    fields.sort();
+    format!(
+        "(format {} ({}) ({}) {} {} {})",
+        enc(&f.date),
+        com.iter().map(|(k, v)| format!("({} {})", enc(k), v)).collect::<Vec<_>>().join(" "),
+        fields.iter().map(|(k, v)| format!("({} {})", k, v)).collect::<Vec<_>>().join(" "),
+        enc(&f.delimiter),
+        f.skip.head,
+        match f.row_order {
+            config::RowOrder::OldToNew => "o2n",
+            config::RowOrder::NewToOld => "n2o",
+        }
+    )
+}
+
+pub fn entry_sx(e: &config::ConfigEntry) -> String {
+    format!(
+        "(entry {} {} {} {} {} (spec {} {}) {} ({}))",
+        enc(&e.path),
+        enc(e.encoding.as_encoding().name()),
+        enc(&e.account),
+        match e.account_type {
+            config::AccountType::Asset => "a",
+            config::AccountType::Liability => "l",
+        },
+        opt(e.operator.as_ref(), |s| enc(s)),
+        enc(&e.commodity.primary),
+        conv_sx(&e.commodity.conversion),
+        format_sx(&e.format),
+        e.rewrite.iter().map(rule_sx).collect::<Vec<_>>().join(" ")
+    )
+}
+
+fn select_case(ws: &[&str]) -> String {
+    if ws.len() != 2 {
+        return "(bad-case)".to_string();
+    }
+    let (Some(path), Some(yaml)) = (sx::dec(ws[0]), sx::dec(ws[1])) else { return "(bad-case)".to_string() };
+    let set = match config::load_from_yaml(yaml.as_bytes()) {
+        Ok(s) => s,
+        Err(e) => return format!("(err yaml {} {})", err_kind(&e), enc(&format!("{:?}", e))),
+    };
+    match set.select(Path::new(&path)) {
+        Err(e) => format!("(err select {} {})", err_kind(&e), enc(&e.to_string())),
+        Ok(None) => "(none)".to_string(),
+        Ok(Some(c)) => format!("(some {})", entry_sx(&c)),
+    }
+}
+
+// ------------------------------------------------------------------------------------------------
+// rules
+
+#[derive(Debug, Clone)]
+enum Kind {
+    Payee(Option<String>),
+    Text(Option<String>, bool),
+    Code(Option<String>),
+}
+
+#[derive(Debug, Default)]
+pub struct Rec {
+    fields: HashMap<String, Kind>,
+}
+
+impl Rec {
+    fn kind(&self, f: &str) -> Kind {
+        self.fields.get(f).cloned().unwrap_or(Kind::Text(None, true))
+    }
+    fn kind_ref(&self, f: &str) -> Option<&Kind> {
+        self.fields.get(f)
+    }
+}
+
+/// The harness's `EntityMatcher`: shaped like `CsvMatcher` / `VisecaMatcher` / camt's `FieldMatch`.
+#[derive(Debug)]
+pub struct RecMatcher {
+    field: String,
+    raw: String,
+    pattern: regex::Regex,
+}
+
+impl<'a> TryFrom<(config::RewriteField, &'a str)> for RecMatcher {
+    type Error = ImportError;
+    fn try_from((f, v): (config::RewriteField, &'a str)) -> Result<Self, ImportError> {
+        let pattern = extract::regex_matcher(v)?;
+        Ok(RecMatcher { field: f.to_string(), raw: v.to_string(), pattern })
+    }
+}
+
+impl<'a> extract::Entity<'a> for RecMatcher {
+    type T = &'a Rec;
+}
+
+impl extract::EntityMatcher for RecMatcher {
+    fn captures<'a>(&self, fragment: &extract::Fragment<'a>, entity: &'a Rec) -> Option<extract::Matched<'a>> {
+        match entity.kind_ref(&self.field) {
+            None => None,
+            Some(Kind::Payee(original)) => {
+                let target: &'a str = fragment.payee.or(original.as_deref())?;
+                self.pattern.captures(target).map(Into::into)
+            }
+            Some(Kind::Text(value, keep)) => {
+                let target: &'a str = value.as_deref()?;
+                let m: extract::Matched<'a> = self.pattern.captures(target).map(Into::into)?;
+                if *keep {
+                    Some(m)
+                } else {
+                    Some(extract::Matched::default())
+                }
+            }
+            Some(Kind::Code(value)) => {
+                if value.as_deref()? == self.raw {
+                    Some(extract::Matched::default())
+                } else {
+                    None
+                }
+            }
+        }
+    }
+}
+
+fn parse_record(toks: &[&str]) -> Option<Rec> {
+    let mut rec = Rec::default();
+    for t in toks {
+        let (f, k) = t.split_once('=')?;
+        let kind = if k == "P-" {
+            Kind::Payee(None)
+        } else if let Some(v) = k.strip_prefix("P:") {
+            Kind::Payee(Some(sx::dec(v)?))
+        } else if k == "T1-" || k == "T0-" {
+            Kind::Text(None, k == "T1-")
+        } else if let Some(v) = k.strip_prefix("T1:") {
+            Kind::Text(Some(sx::dec(v)?), true)
+        } else if let Some(v) = k.strip_prefix("T0:") {
+            Kind::Text(Some(sx::dec(v)?), false)
+        } else if k == "C-" {
+            Kind::Code(None)
+        } else if let Some(v) = k.strip_prefix("C:") {
+            Kind::Code(Some(sx::dec(v)?))
+        } else {
+            return None;
+        };
+        rec.fields.insert(f.to_string(), kind);
+    }
+    Some(rec)
+}
+
+fn frag_sx(f: &extract::Fragment) -> String {
+    format!(
+        "(frag {} {} {} {} {})",
+        f.cleared as u8,
+        opt(f.payee, enc),
+        opt(f.account, enc),
+        opt(f.code, enc),
+        opt(f.conversion, conv_sx)
+    )
+}
+
+fn load_rules(yaml: &str) -> Result<Vec<config::RewriteRule>, String> {
+    let entry = crate::c15::select_config(yaml, "x")?;
+    Ok(entry.rewrite)
+}
+
+fn rules_case(ws: &[&str]) -> String {
+    if ws.len() < 2 {
+        return "(bad-case)".to_string();
+    }
+    let Some(yaml) = sx::dec(ws[0]) else { return "(bad-case)".to_string() };
+    let Ok(n) = ws[1].parse::<usize>() else { return "(bad-case)".to_string() };
+    let Some(rec) = parse_record(&ws[2..]) else { return "(bad-case)".to_string() };
+    let mut frags: Vec<String> = Vec::new();
+    let mut rules0: Option<Vec<config::RewriteRule>> = None;
+    for _ in 0..n.max(1) {
+        // deserialise again: every field matcher gets a fresh HashMap (fresh RandomState)
+        let rules = match load_rules(&yaml) {
+            Ok(r) => r,
+            Err(m) => return m,
+        };
+        {
+            let extractor: extract::Extractor<RecMatcher> = match (&rules).try_into() {
+                Ok(x) => x,
+                Err(e) => {
+                    let e: ImportError = e;
+                    return format!("(err extractor {} {})", err_kind(&e), enc(&e.to_string()));
+                }
+            };
+            let s = frag_sx(&extractor.extract(&rec));
+            if !frags.contains(&s) {
+                frags.push(s);
+            }
+        }
+        if rules0.is_none() {
+            rules0 = Some(rules);
+        }
+    }
+    // regex table: every pattern against every text the fold can reach
+    let rules = rules0.unwrap();
+    let mut pats: BTreeSet<String> = BTreeSet::new();
+    let mut hays: BTreeSet<String> = BTreeSet::new();
+    for r in &rules {
+        let ms: Vec<&config::FieldMatcher> = match &r.matcher {
+            config::RewriteMatcher::Or(v) => v.iter().collect(),
+            config::RewriteMatcher::Field(m) => vec![m],
+        };
+        for m in ms {
+            for (f, p) in &m.fields {
+                if !matches!(rec.kind(&f.to_string()), Kind::Code(_)) {
+                    pats.insert(p.clone());
+                }
+            }
+        }
+        if let Some(p) = &r.payee {
+            hays.insert(p.clone());
+        }
+    }
+    for k in rec.fields.values() {
+        match k {
+            Kind::Payee(Some(v)) | Kind::Text(Some(v), _) => {
+                hays.insert(v.clone());
+            }
+            _ => (),
+        }
+    }
+    let compiled: Vec<(String, regex::Regex)> = pats.iter().filter_map(|p| extract::regex_matcher(p).ok().map(|r| (p.clone(), r))).collect();
+    let mut table: BTreeMap<(String, String), Option<(Option<String>, Option<String>)>> = BTreeMap::new();
+    loop {
+        let mut new: Vec<String> = Vec::new();
+        for (p, re) in &compiled {
+            for h in &hays {
+                let key = (p.clone(), h.clone());
+                if table.contains_key(&key) {
+                    continue;
+                }
+                let v = re.captures(h).map(|c| {
+                    let m: extract::Matched = c.into();
+                    (m.payee.map(str::to_string), m.code.map(str::to_string))
+                });
+                if let Some((Some(py), _)) = &v {
+                    if !hays.contains(py) {
+                        new.push(py.clone());
+                    }
+                }
+                table.insert(key, v);
+            }
+        }
+        if new.is_empty() || hays.len() > 400 {
+            break;
+        }
+        hays.extend(new);
+    }
+    let tab: Vec<String> = table
+        .iter()
+        .map(|((p, h), v)| match v {
+            None => format!("({} {} n)", enc(p), enc(h)),
+            Some((py, cd)) => format!("({} {} (m {} {}))", enc(p), enc(h), opt(py.as_ref(), |s| enc(s)), opt(cd.as_ref(), |s| enc(s))),
+        })
+        .collect();
+    format!("(ok (frags {}) (table {}))", frags.join(" "), tab.join(" "))
+}
+
+pub fn run(args: &[String], out: &mut dyn Write) -> i32 {
+    let mode = args.first().map(|s| s.as_str()).unwrap_or("").to_string();
+    let stdin = std::io::stdin();
+    for line in stdin.lock().lines() {
+        let line = line.unwrap();
+        let m2 = mode.clone();
+        let rec = sx::catch(move || {
+            let ws: Vec<&str> = line.split(' ').filter(|w| !w.is_empty()).collect();
+            match m2.as_str() {
+                "select" => select_case(&ws),
+                "rules" => rules_case(&ws),
+                _ => "(bad-mode)".to_string(),
+            }
+        });
+        match rec {
+            Ok(r) => writeln!(out, "{}", r).unwrap(),
+            Err(m) => writeln!(out, "(panic {})", enc(&m)).unwrap(),
+        }
+    }
     0
 }
